@@ -25,7 +25,7 @@ from pyvc.contracts import Case, contract
 from pyvc.values import SObj, Opaque
 from contracts.c05_format_cast import Built
 
-PROPS = ("C02",)
+PROPS = ("C02", "C09")  # C09: the emitted operator and operand order is the run-time side of "fold == logic"
 B, Cm, Un = intr_op.BinaryOperator, intr_op.ComparisonOperator, intr_op.UnaryOperator
 
 # Python operator method -> (IR operator, reflected?)   [documented meaning of the Python operators in CoHDL]
